@@ -333,6 +333,9 @@ func c08Decoders(c *core.Ctx, r *c08roles) []c08Decoder {
 		if cf == nil || cf == k || core.FuncPkg(cf) != r.idr || seen[cf] {
 			continue
 		}
+		if g5OnlyContainers(cf) {
+			continue // an array / object builder split off the converter (judged by R08c), not the scalar branch
+		}
 		dp := -1
 		for i, a := range call.Call.Args {
 			if a == ssa.Value(k.Params[np]) {
